@@ -220,3 +220,34 @@ unsigned long strtoul(const char *s, char **end, int base)
 }
 
 #endif /* !REPLAY */
+
+#if !defined(REPLAY) && defined(VP_TYPED_REALLOC)
+/* realloc for vectors of pointers (const_string_vector in src/module.c): CBMC's own model
+ * returns a byte array, and pointers read back from a byte array are no longer constants
+ * for the symbolic execution.  A block whose size is a multiple of the pointer size is
+ * allocated as an array of pointers and copied element-wise. */
+#include <stdlib.h>
+void *realloc(void *p, size_t n)
+{
+    size_t old = p ? __CPROVER_OBJECT_SIZE(p) : 0, i;
+    if (n == 0) {
+        free(p);
+        return NULL;
+    }
+    if (n % sizeof(void *) == 0 && old % sizeof(void *) == 0) {
+        void **q = malloc((n / sizeof(void *)) * sizeof(void *));
+        __CPROVER_assume(q != NULL);
+        for (i = 0; i < old / sizeof(void *) && i < n / sizeof(void *); i++)
+            q[i] = ((void **)p)[i];
+        free(p);
+        return q;
+    } else {
+        char *q = malloc(n);
+        __CPROVER_assume(q != NULL);
+        for (i = 0; i < old && i < n; i++)
+            q[i] = ((char *)p)[i];
+        free(p);
+        return q;
+    }
+}
+#endif
